@@ -25,6 +25,8 @@ type evil struct {
 	priv [32]byte
 	s    *refSession
 	log  []string
+	// forceDH: the shared secret the attacker knows its victim will compute (low-order points)
+	forceDH *[32]byte
 }
 
 func newEvil(e io.ReadWriter, r *rand.Rand, key *ecdsa.PrivateKey) *evil {
@@ -59,7 +61,11 @@ func (m *evil) exchangeEph(raw []byte) error {
 		m.note("reading the peer's ephemeral key: %v", err)
 		return err
 	}
-	m.s = refDerive(m.pub, m.priv, rem)
+	if m.forceDH != nil {
+		m.s = refDeriveDH(m.pub, m.priv, rem, *m.forceDH)
+	} else {
+		m.s = refDerive(m.pub, m.priv, rem)
+	}
 	return nil
 }
 
@@ -598,6 +604,8 @@ var hsScenarios = []hsScenario{
 		pt, _ := hex.DecodeString(lowOrderPoints[idx])
 		v := h.vsEvil("A", func(m *evil) {
 			copy(m.pub[:], pt)
+			// every scalar times a point of order 1, 2, 4 or 8 is the neutral element: the victim computes the all-zero secret
+			m.forceDH = &[32]byte{}
 			if m.exchangeEph(nil) != nil {
 				return
 			}
